@@ -45,6 +45,7 @@ def _model_runs(chk, tier, results):
             ("DriverLayer", dict(coverage=True, workers=3), None),
             ("DriverLive", dict(workers=2), None),
             ("DriverLayerMP", dict(workers=1), None),
+            ("DriverSplit", dict(workers=4), None),        # ... with the common header of a split C output as an output kind
             ("DriverAsWritten", dict(workers=1), "CompleteOnSuccess"),
             ("DriverWitness", dict(workers=1), "NeverFailsAfterFault")]
     if tier != "quick":
